@@ -5,8 +5,8 @@ PID = "C06"
 LEVEL = cc.LEVEL
 BUILDS = cc.BUILDS
 CASE_TIMEOUT = cc.CASE_TIMEOUT
-LEAN_MODULES = ["AsynqModel.Theorems.C06"]
-THEOREMS = ["AsynqModel.Core." + n for n in ['C06_flags', 'C06_flags_strong', 'C06_alternate', 'C06_nonasync_fails', 'C06_nonasync_only']]
+LEAN_MODULES = ["AsynqModel.Theorems.C06", "AsynqModel.Theorems.C07b"]
+THEOREMS = ["AsynqModel.Core." + n for n in ['C06_flags', 'C06_flags_strong', 'C06_alternate', 'C06_nonasync_fails', 'C06_nonasync_only', 'C06_paused_at_ret']]
 MIX = [('yield_ctx',5),('full',3),('nonasync',3)]
 RULE = ("grammar-generated task programs (profiles %s; trees and DAGs of tasks, 1-3 batch kinds with priority overrides "
         "and raising flushes, nested yield structures, errors, try/except, synchronous re-entry, contexts) interpreted on "
